@@ -157,6 +157,9 @@ class SQLDumper(DumperBase):
                            use_bloom_filter=use_bloom_filter,
                        ))
 
+    def is_dumped(self, resource):
+        return resource.res.name in self.converted_resources
+
     def get_output_row(self, written):
         updated, updated_id = written.updated, written.updated_id
         # rows are written in the order they came in
